@@ -11,7 +11,9 @@ NOGC = ["michaellist_nogc", "lazylist_nogc"]
 def run(ctx):
     # Tier B: MichaelList.tla (search with helping, link / mark / unlink; ghost abstract set; without the pPrev re-check it fails)
     vlib.model_check_many(ctx, [dict(module_rel="list/MichaelListMC.tla", cfg_rel="list/MichaelList_q.cfg" if ctx.quick() else "list/MichaelList_t.cfg", workers=6, timeout=3000),
-                                dict(module_rel="list/MichaelListMC.tla", cfg_rel="list/MichaelList_bad_norecheck.cfg", workers=4, expect_violation="LinOK")], par=2)
+                                dict(module_rel="list/MichaelListMC.tla", cfg_rel="list/MichaelList_bad_norecheck.cfg", workers=4, expect_violation="LinOK"),
+                                dict(module_rel="list/LazyListMC.tla", cfg_rel="list/LazyList_q.cfg" if ctx.quick() else "list/LazyList_t.cfg", workers=6, timeout=3000),
+                                dict(module_rel="list/LazyListMC.tla", cfg_rel="list/LazyList_bad_novalidate.cfg", workers=2, expect_violation="StructureOK")], par=4)
     q = ctx.quick()
     n = 1 if q else 8
     deep = [("dfs", 2500 if q else 300000, 2 if q else 3)]
